@@ -13,6 +13,10 @@
     the same constructor, so R1 covers them all.
  R4 page selection: every variant of the page-range selector has its own arm and every index is
     compared with the page count before use.
+ R5 stream joining: when the streams of a /Contents array are flattened into the single content buffer of the rebuilt page,
+    a white-space byte is inserted after every stream (ISO 32000-1 §7.7.3.3 only guarantees that the division between streams
+    falls on a token boundary): a loop that appends each stream also pushes a white-space constant; `concat()` / `flatten()`
+    without a separator fuses the last token of one stream with the first of the next (`cm` + `0` -> `cm0`).
 Not decided: equality of decoded content/resources; permutation correctness.
 """
 from .. import lib as L
@@ -63,6 +67,59 @@ def run(ctx):
         ctx.violation("R1", "page:cropbox-carried", "the parsed page's /CropBox is dropped: `Page` has %s crop-box field and `to_dict` "
                       "%s /CropBox — split/merge/extract/rotate output shows the full media box instead of the cropped region"
                       % ("a" if has_crop_field else "no", "writes" if writes_crop else "never writes"), td.where())
+    # R5 joining of the content streams
+    WS = (0x0A, 0x20, 0x0D, 0x09)
+    flc = FL.flow(ctor)
+    gc = CF.cfg(ctor)
+    src = [b for b, c, a, d in L.calls_to(ctor, ["content_streams_with_document", "content_streams", "get_page_content_streams"])]
+    if ctx.floor("R5", "content_streams call in the page constructor", len(src), 1):
+        key = "page:content-streams-joined-with-whitespace"
+        derived_calls = []
+        for b, c, a, d, t, u in ctor.calls():
+            if not isinstance(c, dict) or b in src:
+                continue
+            seen, drecs = flc.back_slice([l for o in a for l in FL.op_locals(o)])
+            if any(dd[0] == "call" and dd[1] in src for dd in drecs):
+                derived_calls.append((b, c, a))
+        flat = [(b, c) for b, c, a in derived_calls if L.short(c.get("p") or "") in ("concat", "flatten", "flat_map")]
+        joins = [(b, c, a) for b, c, a in derived_calls if L.short(c.get("p") or "") == "join"]
+        verdict = None
+        if flat:
+            verdict = ("bad", "the streams are flattened with `%s()` and no separator" % L.short(flat[0][1]["p"]), ctor.where(flat[0][0]))
+        elif joins:
+            b, c, a = joins[0]
+            sep = a[1] if len(a) > 1 else None
+            sv = L.resolve_str_operand(ctor, sep) if sep is not None else None
+            k = FL.op_const(sep) if sep is not None else None
+            if (sv and sv.strip(" \n\r\t") == "" and sv) or (isinstance(k, int) and k in WS):
+                verdict = ("ok", "join with a white-space separator", ctor.where(b))
+            else:
+                verdict = ("bad", "the streams are joined with a separator that is not white space", ctor.where(b))
+        else:
+            # loop form: the loop that consumes the streams' iterator appends each stream and pushes a white-space constant
+            for h, body in sorted(gc.loops().items()):
+                nx = [b for b in body if ctor.term(b)[0] == "call" and L.is_call_to(ctor.term(b)[1], ["Iterator::next"])
+                      and "Vec<u8>" in (ctor.term(b)[1].get("self") or "")]
+                if not nx:
+                    continue
+                ext = [b for b in body if ctor.term(b)[0] == "call" and L.is_call_to(ctor.term(b)[1], ["extend_from_slice", "extend", "append"])]
+                wsp = [b for b in body if ctor.term(b)[0] == "call" and L.is_call_to(ctor.term(b)[1], ["push", "extend_from_slice", "push_str"])
+                       and any((isinstance(FL.op_const(o), int) and FL.op_const(o) in WS) or
+                               ((L.resolve_str_operand(ctor, o) or "x").strip(" \n\r\t") == "" and L.resolve_str_operand(ctor, o))
+                               for o in ctor.term(b)[2][1:])]
+                latches = [s_ for s_, hh in gc.back_edges() if hh == h]
+                if ext and wsp and all(gc.path(e, latches, avoid_blocks=set(wsp) | (set(range(len(ctor.blocks))) - set(body))) is None for e in ext):
+                    verdict = ("ok", "each stream appended in the loop is followed by a white-space byte", ctor.where(h))
+                elif ext:
+                    verdict = ("bad", "the loop appends each stream without a white-space byte after it", ctor.where(ext[0]))
+        if verdict is None:
+            ctx.undecided_site("R5", key, "no recognised joining idiom (loop / join / concat) over the content streams", ctor.where(src[0]))
+        elif verdict[0] == "ok":
+            ctx.ok("R5", key, verdict[1], verdict[2])
+        else:
+            ctx.violation("R5", key, "%s: the last token of one content stream fuses with the first token of the next when a stream "
+                          "does not end in white space (`... cm` + `0 0 m` -> `cm0 0 m`), so the rebuilt page decodes to different "
+                          "operators than the source page" % verdict[1], verdict[2])
     # R2 rotation
     cr = ctx.fn("operations::rotate::PageRotator::create_rotated_page", "R2")
     flr = FL.flow(cr)
